@@ -2,7 +2,8 @@ import struct
 import numpy as np
 
 from .read import SgzReader
-from .utils import pad, int_to_bytes, np_float_to_bytes, np_float_to_bytes_signed, coord_to_index
+from .utils import (pad, int_to_bytes, np_float_to_bytes, np_float_to_bytes_signed, coord_to_index,
+                    WrongDimensionalityError)
 from .sgzconstants import DISK_BLOCK_BYTES, SEGY_TEXT_HEADER_BYTES
 
 
@@ -15,6 +16,8 @@ class SgzCropper(SgzReader):
         super().__init__(file, filetype_checking, preload, chunk_cache_size)
 
     def check_and_correct_bounds(self, iline_index_range, xline_index_range, zslices_index_range):
+        if self.is_2d:
+            raise WrongDimensionalityError("Cropping is not supported for 2D files")
         valid_bounds = True
         if iline_index_range is None and xline_index_range is None and zslices_index_range is None:
             print("Error: No cropping ranges specified, no file will be written.")
@@ -40,6 +43,12 @@ class SgzCropper(SgzReader):
         if zslices_index_range[0] < 0 or zslices_index_range[1] > len(self.zslices):
             print(err_string.format("Zslice", 0, len(self.zslices), *zslices_index_range))
             valid_bounds = False
+
+        for range_, name in ((iline_index_range, "Inline"), (xline_index_range, "Crossline"),
+                             (zslices_index_range, "Zslice")):
+            if range_[0] >= range_[1]:
+                print("{} range ({},{}) is empty.".format(name, *range_))
+                valid_bounds = False
 
         if valid_bounds:
             iline_index_range = self.correct_bounds(iline_index_range, "inline", len(self.ilines), 0)
